@@ -20,15 +20,18 @@ Definition inner_sel : list prog :=
   scopes_over [1; 2] [PSleep 0 2; PSeq (PSleep 0 1) (PCheckpoint 0); PSeq (PCancel 1) (PSleep 0 1)]
   ++ [PShield 0 (PSleep 0 2); PShield 0 (PSeq (PSleep 0 1) (PCheckpoint 0)); PCatch 0 CCancel (PSleep 0 2);
       PShield 0 (PScope 0 KMoveOn false (Some 1) (PSleep 0 2))].
+Definition items1_small : list prog :=
+  scopes_over [1; 2] atoms ++ map (fun b => PShield 0 b) atoms ++ map (fun b => PCatch 0 CCancel b) atoms
+  ++ [PShYield 0].
 (* an outer scope around { item ; sleep 1 } *)
 Definition items2 : list prog :=
-  scopes_over [1; 2] (map (fun y => PSeq y (PSleep 0 1)) (inner_sel ++ items1)).
+  scopes_over [1; 2] (map (fun y => PSeq y (PSleep 0 1)) (inner_sel ++ items1_small)).
 Definition epilogue (x : prog) : prog := PSeq x (PSeq (PSleep 0 1) (PCheckpoint 0)).
-(* 669 programs *)
+(* 285 programs *)
 Definition bounded_programs : list prog := map epilogue (items1 ++ items2).
-(* no controller, or one task.cancel() at the front / back of the ready queue of loop iteration 1..14: 29 schedules *)
+(* no controller, or one task.cancel() at the front / back of the ready queue of loop iteration 1..12: 25 schedules *)
 Definition bounded_positions : list (list (nat * bool)) :=
-  [] :: flat_map (fun n => [[(n, true)]; [(n, false)]]) (seq 1 14).
+  [] :: flat_map (fun n => [[(n, true)]; [(n, false)]]) (seq 1 12).
 (* the three states of the code: as found, with the repair of F1, with the repairs of F1 and F2 *)
 Definition bounded_flags : list (bool * bool) := [(false, true); (true, true); (true, false)].
 
